@@ -35,14 +35,15 @@ ALLOW_RAW = {
     "parser.sqlparse.utils.get_subquery_parentheses:.tokens:index:-1": _SQLPARSE_GROUP,
     "parser.sqlparse.utils.get_parameters:.tokens:index:-1": _SQLPARSE_GROUP,
     "SwapPartitionHandler.handle:.tokens:index:-1": _SQLPARSE_GROUP,
-    "SqlFluffLineageAnalyzer._list_specific_statement_segment:.segments:index:0": ("a `statement` node wraps exactly one child statement segment: nothing can sit before it", "statement-wraps-one"),
+    "SqlFluffLineageAnalyzer.split_tsql:.segments:index:0": ("a `statement` node wraps exactly one child statement segment: nothing can sit before it", "statement-wraps-one"),
+    "SqlFluffLineageAnalyzer.analyze:.segments:index:0": ("a `statement` node wraps exactly one child statement segment: nothing can sit before it", "statement-wraps-one"),
     "SqlFluffTable.of:.segments:index:0": ("object / table references are parsed with allow_gaps=False: no whitespace or comment between their parts", "reference-no-gaps"),
     "SqlFluffTable.of:.segments:index:i+1": ("same: dotted references have no gaps, so the segment after the last dot is the name part", "reference-no-gaps"),
     "SqlFluffTable.of:.segments:index:var": ("same: dotted references have no gaps", "reference-no-gaps"),
     "parser.sqlfluff.utils.is_subquery:.segments:index:0": ("a from_expression_element starts with its table expression; comments before it attach to the enclosing from_expression", "fee-first"),
     "parser.sqlfluff.utils.extract_as_and_target_segment:.segments:index:0": ("the target is a table_expression whose first child is the table reference / bracketed query (no leading gap inside a freshly matched segment)", "fee-first"),
-    "SqlParseLineageAnalyzer._extract_from_dml_merge:.tokens:index:1": ("the non-validating analyzer strips comments before parsing (trim_comment in analyze); token 1 of a Parenthesis follows the opening bracket", None),
-    "BaseExtractor._add_dataset_from_expression_element:.segments:index:-1": ("a file_reference has no gaps; its last segment is the path literal", "reference-no-gaps"),
+    "SqlParseLineageAnalyzer.analyze:.tokens:index:1": ("the non-validating analyzer strips comments before parsing (trim_comment in analyze); token 1 of a Parenthesis follows the opening bracket", None),
+    "BaseExtractor._list_table_from_from_clause_or_join_clause:.segments:index:-1": ("a file_reference has no gaps; its last segment is the path literal", "reference-no-gaps"),
 }
 
 
